@@ -789,6 +789,47 @@ def render_json(schema, forest):
     return level(forest, True).encode("utf-8")
 
 
+# ----------------------------------------------------------------------------------------------------------------
+# the same data definitions as rpc input / rpc output / notification content (C02: input/output placement, RFC 7950 sec. 7.7:
+# only CONFIGURATION leaf-lists must be duplicate free)
+# ----------------------------------------------------------------------------------------------------------------
+
+def state_variant(s):
+    """the schema with every node config false: what the constraints of its data definitions amount to inside an operation
+    or a notification, where the config statement is ignored (RFC 7950 sec. 7.21.1)"""
+    import copy
+    s2 = copy.deepcopy(s)
+    for n in s2.nodes:
+        n.config = False
+    return s2
+
+
+def op_module(s):
+    """module text: the data definitions of `s` kept, and repeated below rpc zzop input, rpc zzoq output and notification zzev;
+    input and output each get a leaf of their own (placement)"""
+    lines = s.yang().rstrip("\n").split("\n")
+    head, body = lines[:4], ["    " + l for l in lines[4:-1]]
+    out = head + lines[4:-1]
+    out += ["  rpc zzop {", "    input {"] + body + ["      leaf zzin { type string; }", "    }", "    output { leaf zzo { type string; } }", "  }"]
+    out += ["  rpc zzoq {", "    input { leaf zzi { type string; } }", "    output {"] + body + ["      leaf zzout { type string; }", "    }", "  }"]
+    out += ["  notification zzev {"] + body + ["  }", "}"]
+    return "\n".join(out) + "\n"
+
+
+def op_docs(s, forest, extra=None):
+    """[in.xml, in.json, out.xml, out.json, notif.xml, notif.json]; extra = name of one more (misplaced or proper) leaf"""
+    ns = ("urn:verif:%s" % s.name).encode()
+    xb, jb = render_xml(s, forest), render_json(s, forest).decode("utf-8")
+    docs = []
+    for wrap in ("zzop", "zzoq", "zzev"):
+        xe = ("<%s>v</%s>" % (extra, extra)).encode() if extra and wrap != "zzev" else b""
+        je = ('"%s":"v"' % extra) if extra and wrap != "zzev" else ""
+        docs.append(b"<" + wrap.encode() + b' xmlns="' + ns + b'">' + xb + xe + b"</" + wrap.encode() + b">")
+        j = jb[:-1] + ("," if len(jb) > 2 and je else "") + je + "}"
+        docs.append(('{"%s:%s":%s}' % (s.name, wrap, j)).encode("utf-8"))
+    return docs
+
+
 def shuffle_doc(rng, forest):
     """document order for the parsers: any permutation of the siblings that keeps list keys first and the relative order of
     the instances of user-ordered / duplicate-instance nodes (tg.scramble)"""
